@@ -219,6 +219,9 @@ def run(ctx):
                 for dd in wm.init_of(x[1]):
                     if d < 4:
                         out |= deep_fields(expand(wm, dd), d + 1)
+                lb_ = loop_built(wm, x[1]) if d < 4 else None
+                if lb_:
+                    out |= deep_fields(expand(wm, lb_['elem']), d + 1) | deep_fields(expand(wm, lb_['source']), d + 1)
         return out
 
     def what(a):
@@ -371,7 +374,8 @@ def run(ctx):
         det = ''
         if vs:
             cands = [vs[0]] + [expand(wm, d) for x in walk(vs[0]) if isinstance(x, tuple) and x[0] == 'var' for d in wm.init_of(x[1])]
-            for e in cands:
+            raws = [vs[0]] + [d for x in walk(vs[0]) if isinstance(x, tuple) and x[0] == 'var' for d in wm.init_of(x[1])]
+            for e, e_raw in zip(cands, raws):
                 e = expand(wm, e)
                 hj = None
                 for y in walk(e):
@@ -380,6 +384,34 @@ def run(ctx):
                 joins_ = [c_ for c_ in calls_in(e) if c_[1].endswith('::join') and c_[1] not in P.fns]
                 if hj is not None and not joins_:
                     ok, det = hj
+                    break
+                lbj = None
+                joins_raw = [c_ for c_ in calls_in(e_raw) if c_[1].endswith('::join') and c_[1] not in P.fns]
+                if joins_raw:
+                    v_ = strip(joins_raw[0][2][0])
+                    while v_[0] == 'call' and v_[2] and re.search(r'(::deref|::as_slice|::as_ref)$', v_[1]):
+                        v_ = strip(v_[2][0])
+                    lbj = loop_built(wm, v_[1]) if v_[0] == 'var' else None
+                if lbj is not None:
+                    # join of a vector filled in a loop over the backend list: every backend that has the section pushes it, in order
+                    src_ = strip(expand(wm, lbj['source']))
+                    base_ok = is_call(src_, 'slice::<impl [T]>::iter') and any(re.search(MAPM('get'), c_[1]) and ('str', 'rust') in list(walk(c_)) and
+                                                                                 any(isinstance(y, tuple) and y[0] == 'field' and y[2] == 'backends' for y in walk(c_)) for c_ in calls_in(src_)) and \
+                        not any(re.search(BAD_SEQ, c_[3]) for c_ in calls_in(src_))
+                    el_ = strip(expand(wm, lbj['elem']))
+                    while el_[0] == 'call' and el_[2] and re.search(r'(::as_str|::deref|::as_ref|::borrow)$', el_[1]):
+                        el_ = strip(el_[2][0])
+                    sec_ = el_[1] if el_[0] == 'payload' and el_[2] == 'Some' else None
+                    sec_ok = sec_ is not None and strip(sec_)[0] == 'field' and strip(sec_)[2] == nm and any(
+                        isinstance(y, tuple) and y[0] == 'payload' and y[2] == 'Some' and is_call(strip(y[1]), 'Iterator::next') for y in walk(sec_))
+                    skips_ = loop_skip_paths(wm, lbj) if lbj['filtered'] else []
+                    # the only way round the push: this backend has no such section (tests on the *other* section do not skip this one)
+                    own_skips = [p_ for p_ in skips_ if any(c_[0] == 'discr' and sec_ is not None and strip(c_[1]) == strip(sec_) and lab == 'None' for c_, lab in p_)]
+                    other_skips = [p_ for p_ in skips_ if p_ not in own_skips]
+                    skip_ok = all(all((c_[0] == 'discr' and strip(c_[1])[0] == 'field' and strip(c_[1])[2] in ('prologue', 'epilogue')) for c_, lab in p_) for p_ in skips_) and not other_skips
+                    sep_ok = ('str', '\n') in list(walk(joins_[0][2][1]))
+                    ok = bool(base_ok and sec_ok and skip_ok and sep_ok)
+                    det = 'join of a vector pushed in a loop over backends["rust"] (whole list %s, pushes backend.%s %s, skipped only when absent %s)' % (base_ok, nm, sec_ok, skip_ok)
                     break
                 if joins_:
                     j = joins_[0]
